@@ -41,6 +41,11 @@ func OpenReader(r io.Reader) (*Reader, error) {
 	if err != nil {
 		return nil, fmt.Errorf("parsing HTML: %w", err)
 	}
+	// Twelve million nested <i> (36 MB of HTML, or a 40 KB EPUB whose chapter
+	// holds them) ended the process with a stack overflow in extractHead.
+	if treeDeeperThan(doc, maxTreeDepth) {
+		return nil, fmt.Errorf("parsing HTML: elements nested deeper than %d levels", maxTreeDepth)
+	}
 
 	reader := &Reader{
 		doc:           doc,
@@ -56,6 +61,35 @@ func OpenReader(r io.Reader) (*Reader, error) {
 	reader.extractBody(doc)
 
 	return reader, nil
+}
+
+// maxTreeDepth is the deepest element nesting this reader accepts (the limit encoding/xml
+// applies to XML). x/net/html builds its tree without recursion and without a
+// depth limit, while the functions here walk it by recursion.
+const maxTreeDepth = 10000
+
+// treeDeeperThan reports whether the tree under root is nested deeper than limit. It
+// walks the tree iteratively.
+func treeDeeperThan(root *html.Node, limit int) bool {
+	depth := 0
+	for n := root; n != nil; {
+		if n.FirstChild != nil {
+			n = n.FirstChild
+			if depth++; depth > limit {
+				return true
+			}
+			continue
+		}
+		for n != root && n.NextSibling == nil {
+			n = n.Parent
+			depth--
+		}
+		if n == root {
+			return false
+		}
+		n = n.NextSibling
+	}
+	return false
 }
 
 // Close releases resources associated with the Reader.
